@@ -2,7 +2,7 @@
 """C18 -- connect() and sense() honour their documented contract (structural clauses)."""
 import ast
 
-from ..model import norm, head, walk_no_nested, AnalysisError, FuncInfo, enclosing_stmt, ancestors, live
+from ..model import norm, head, walk_no_nested, AnalysisError, FuncInfo, enclosing_stmt, ancestors, live, last_live
 from ..cfg import cfg_of
 from ..q import (find, match, const, try_const, only_via, tests, stmt_nodes, one, fmt, cfg_node_for, calls)
 from ..core import key
@@ -188,7 +188,7 @@ def rule_card_loop(report, prog):
                     first = h
                     break
             okk = first is not None and 'BrokenLinkError' in (norm(first.type) if first.type is not None else '') and \
-                isinstance(live(first.body)[-1], (ast.Break, ast.Return))
+                isinstance(last_live(first.body), (ast.Break, ast.Return))
             report.check(okk, 'C18-R3', key(f.qname, 'a broken link leaves the card emulation loop'), f.loc(t),
                          'BrokenLinkError does not end the command loop of _card_connect: after the reader left, on-release is never called and connect() '
                          'keeps exchanging on the dead link until terminate() becomes true')
